@@ -1,4 +1,5 @@
 import TR.DetSpec
+import Proofs.Ring
 /-!
 # Proofs.DetC09 — helper lemmas for C09 (FFC quiet period, independence of earlier frames)
 -/
@@ -48,5 +49,792 @@ theorem detect_quiet (c : DCfg) (d : Det F) (f : Frame) (ffc : Bool)
   rcases h with h | h <;> simp [h]
 
 theorem reset_affected (d : Det F) : d.reset.affected = d.affected := rfl
+
+
+/-! ## Normal form of `detect` -/
+
+/-- the part of `Detect` before `pixelsChanged`: FFC flag and (dynamic threshold) background update -/
+def dpre (c : DCfg) (d : Det F) (f : Frame) (ffc : Bool) : Det F :=
+  let prevFFC := d.affected
+  let d := { d with affected := ffc }
+  if c.dynamic && !ffc then
+    let r := Det.updateBackground c d f prevFFC
+    if r.2.2 && decide (r.1.backgroundFrames > c.previewFrames) then
+      { r.1 with tempThresh := Det.clampThresh c (F.trunc r.2.1) }
+    else r.1
+  else d
+
+theorem detect_eq (c : DCfg) (d : Det F) (f : Frame) (ffc : Bool) :
+    Det.detect c d f ffc = Det.pixelsChanged c (dpre c d f ffc) f ffc d.affected := rfl
+
+theorem ub_fields (c : DCfg) (d : Det F) (f : Frame) (p : Bool) :
+    (Det.updateBackground c d f p).1.floored = d.floored ∧
+    (Det.updateBackground c d f p).1.diffs = d.diffs ∧
+    (Det.updateBackground c d f p).1.firstDiff = d.firstDiff ∧
+    (Det.updateBackground c d f p).1.backgroundFrames = d.backgroundFrames + 1 ∧
+    (Det.updateBackground c d f p).1.tempThresh = d.tempThresh := by
+  unfold Det.updateBackground
+  simp only
+  split <;> exact ⟨rfl, rfl, rfl, rfl, rfl⟩
+
+theorem dpre_skip (c : DCfg) (d : Det F) (f : Frame) (ffc : Bool) (h : (c.dynamic && !ffc) = false) :
+    dpre c d f ffc = { d with affected := ffc } := by
+  unfold dpre
+  simp only [h, Bool.false_eq_true, if_false]
+
+theorem dpre_dyn (c : DCfg) (d : Det F) (f : Frame) (ffc : Bool) (h : (c.dynamic && !ffc) = true) :
+    dpre c d f ffc =
+      if (Det.updateBackground c { d with affected := ffc } f d.affected).2.2 &&
+          decide ((Det.updateBackground c { d with affected := ffc } f d.affected).1.backgroundFrames
+            > c.previewFrames) then
+        { (Det.updateBackground c { d with affected := ffc } f d.affected).1 with
+          tempThresh := Det.clampThresh c
+            (F.trunc (Det.updateBackground c { d with affected := ffc } f d.affected).2.1) }
+      else (Det.updateBackground c { d with affected := ffc } f d.affected).1 := by
+  unfold dpre
+  simp only [h, if_true]
+
+theorem dpre_fields (c : DCfg) (d : Det F) (f : Frame) (ffc : Bool) :
+    (dpre c d f ffc).floored = d.floored ∧ (dpre c d f ffc).diffs = d.diffs ∧
+    (dpre c d f ffc).firstDiff = d.firstDiff ∧
+    (dpre c d f ffc).backgroundFrames = (if c.dynamic && !ffc then d.backgroundFrames + 1 else d.backgroundFrames) := by
+  cases h : (c.dynamic && !ffc)
+  · rw [dpre_skip c d f ffc h]; simp
+  · rw [dpre_dyn c d f ffc h]
+    have hu := ub_fields c { d with affected := ffc } f d.affected
+    split <;> simp [hu]
+
+/-- the diff frame written by `pixelsChanged` -/
+def diffOf (c : DCfg) (t : Nat) (f cmp stale : Frame) : Frame :=
+  fun y x => if c.inI y x then pixDiff c.warmerOnly t (f y x) (cmp y x) else stale y x
+
+def newDiff (c : DCfg) (d : Det F) (f : Frame) (ffc : Bool) : Frame :=
+  diffOf c (dpre c d f ffc).tempThresh f (d.floored.write f).oldestFrame d.diffs.current
+
+theorem pc_eq (c : DCfg) (d : Det F) (f : Frame) (ffc p : Bool) :
+    Det.pixelsChanged c d f ffc p =
+      ({ d with
+          floored := (if d.firstDiff && (ffc || p) then (d.floored.write f).setAsOldest
+                      else d.floored.write f).move,
+          diffs := (d.diffs.write (diffOf c d.tempThresh f (d.floored.write f).oldestFrame d.diffs.current)).move,
+          firstDiff := !(d.firstDiff && (ffc || p)) },
+       d.firstDiff && !(ffc || p) &&
+        decide (Det.countChanged c (diffOf c d.tempThresh f (d.floored.write f).oldestFrame d.diffs.current)
+          (if c.useOneDiff then none else
+            some ((d.diffs.write (diffOf c d.tempThresh f (d.floored.write f).oldestFrame d.diffs.current)).move).current)
+          ≥ c.countThresh)) := by
+  obtain ⟨fl, df, fd, t, bg, bs, w, bf, aff⟩ := d
+  unfold diffOf
+  cases fd <;> cases hq : (ffc || p) <;> simp [Det.pixelsChanged, hq]
+
+
+theorem det_floored (c : DCfg) (d : Det F) (f : Frame) (ffc : Bool) :
+    (Det.detect c d f ffc).1.floored =
+      (if d.firstDiff && (ffc || d.affected) then (d.floored.write f).setAsOldest
+       else d.floored.write f).move := by
+  obtain ⟨h1, _, h3, _⟩ := dpre_fields c d f ffc
+  rw [detect_eq, pc_eq]; simp only [h1, h3]
+
+theorem det_diffs (c : DCfg) (d : Det F) (f : Frame) (ffc : Bool) :
+    (Det.detect c d f ffc).1.diffs = (d.diffs.write (newDiff c d f ffc)).move := by
+  obtain ⟨h1, h2, _, _⟩ := dpre_fields c d f ffc
+  rw [detect_eq, pc_eq]; simp only [h1, h2, newDiff]
+
+theorem det_firstDiff (c : DCfg) (d : Det F) (f : Frame) (ffc : Bool) :
+    (Det.detect c d f ffc).1.firstDiff = !(d.firstDiff && (ffc || d.affected)) := by
+  obtain ⟨_, _, h3, _⟩ := dpre_fields c d f ffc
+  rw [detect_eq, pc_eq]; simp only [h3]
+
+theorem det_rest (c : DCfg) (d : Det F) (f : Frame) (ffc : Bool) :
+    (Det.detect c d f ffc).1.tempThresh = (dpre c d f ffc).tempThresh ∧
+    (Det.detect c d f ffc).1.bg = (dpre c d f ffc).bg ∧
+    (Det.detect c d f ffc).1.weight = (dpre c d f ffc).weight ∧
+    (Det.detect c d f ffc).1.backgroundFrames = (dpre c d f ffc).backgroundFrames := by
+  rw [detect_eq, pc_eq]; exact ⟨rfl, rfl, rfl, rfl⟩
+
+theorem det_out (c : DCfg) (d : Det F) (f : Frame) (ffc : Bool) :
+    (Det.detect c d f ffc).2 =
+      (d.firstDiff && !(ffc || d.affected) &&
+        decide (Det.countChanged c (newDiff c d f ffc)
+          (if c.useOneDiff then none else some ((d.diffs.write (newDiff c d f ffc)).move).current)
+          ≥ c.countThresh)) := by
+  obtain ⟨h1, h2, h3, _⟩ := dpre_fields c d f ffc
+  rw [detect_eq, pc_eq]; simp only [h1, h2, h3, newDiff]; rfl
+
+/-! ## The two-slot diff ring -/
+
+theorem prev_read {α : Type} (r : Ring α) (v : α) (h : r.size = 2) :
+    ((r.write v).move).current = r.slots ((r.cur + 1) % 2) := by
+  simp only [Ring.current, Ring.move, Ring.write, Ring.next, h]
+  have : (r.cur + 1) % 2 ≠ r.cur := by omega
+  simp only [this, if_false]
+
+theorem prev_after {α : Type} (r : Ring α) (v : α) (h : r.size = 2) (hc : r.cur < 2) :
+    ((r.write v).move).slots (((r.write v).move.cur + 1) % 2) = v ∧
+    (r.write v).move.cur = (r.cur + 1) % 2 ∧ (r.write v).move.size = 2 := by
+  simp only [Ring.move, Ring.write, Ring.next, h]
+  have : ((r.cur + 1) % 2 + 1) % 2 = r.cur := by omega
+  simp only [this, if_true, and_self]
+
+/-! ## Interior -/
+
+theorem mem_interior_inI (c : DCfg) (p : Nat × Nat) (h : p ∈ c.interior) : c.inI p.1 p.2 = true := by
+  unfold DCfg.interior DCfg.rows DCfg.cols at h
+  simp only [List.mem_flatMap, List.mem_map, List.mem_range'_1] at h
+  obtain ⟨y, ⟨hy1, hy2⟩, x, ⟨hx1, hx2⟩, rfl⟩ := h
+  unfold DCfg.inI
+  simp only [Bool.and_eq_true, decide_eq_true_eq]
+  omega
+
+/-- equality of two frames on the interior -/
+def EqI (c : DCfg) (f g : Frame) : Prop := ∀ p ∈ c.interior, f p.1 p.2 = g p.1 p.2
+
+theorem pixDiff_self (w : Bool) (t a : Nat) : pixDiff w t a a = 0 := by
+  unfold pixDiff; simp
+
+theorem diffOf_eqI (c : DCfg) (tA tB : Nat) (f cmp sA sB : Frame)
+    (ht : ∀ p ∈ c.interior, tA = tB) : EqI c (diffOf c tA f cmp sA) (diffOf c tB f cmp sB) := by
+  intro p hp
+  simp only [diffOf, mem_interior_inI c p hp, if_true, ht p hp]
+
+theorem diffOf_self (c : DCfg) (t : Nat) (f s : Frame) :
+    ∀ p ∈ c.interior, diffOf c t f f s p.1 p.2 = 0 := by
+  intro p hp
+  simp only [diffOf, mem_interior_inI c p hp, if_true, pixDiff_self]
+
+theorem countChanged_congr (c : DCfg) (dA dB pA pB : Frame) (o : Bool) (h1 : EqI c dA dB) (h2 : EqI c pA pB) :
+    Det.countChanged c dA (if o then none else some pA) = Det.countChanged c dB (if o then none else some pB) := by
+  unfold Det.countChanged
+  congr 1
+  apply List.filter_congr
+  intro p hp
+  rw [h1 p hp]
+  cases o
+  · simp only [Bool.false_eq_true, if_false, h2 p hp]
+  · simp only [if_true]
+
+theorem countChanged_zero (c : DCfg) (d : Frame) (pv : Option Frame) (h : ∀ p ∈ c.interior, d p.1 p.2 = 0) :
+    Det.countChanged c d pv = 0 := by
+  unfold Det.countChanged
+  rw [List.length_eq_zero_iff, List.filter_eq_nil_iff]
+  intro p hp
+  simp [h p hp]
+
+
+/-! ## Shape: the fields of two runs that only depend on the constructors and FFC flags of the events -/
+
+structure Shape (dA dB : Det F) (gA gB : Ghost Frame) : Prop where
+  fd : dA.firstDiff = dB.firstDiff
+  aff : dA.affected = dB.affected
+  bf : dA.backgroundFrames = dB.backgroundFrames
+  dcur : dA.diffs.cur = dB.diffs.cur
+  dlt : dA.diffs.cur < 2
+  dsA : dA.diffs.size = 2
+  dsB : dB.diffs.size = 2
+  fs : dA.floored.size = dB.floored.size
+  rA : RInv dA.floored gA
+  rB : RInv dB.floored gB
+  gn : gA.n = gB.n
+  gm : gA.mark = gB.mark
+
+/-- ghost of the floored ring after `Detect` -/
+def gstep (d : Det F) (g : Ghost Frame) (f : Frame) (ffc : Bool) : Ghost Frame :=
+  if d.firstDiff && (ffc || d.affected) then
+    ((g.write f).markNow).move ((d.floored.write f).slots ((d.floored.write f).next (d.floored.write f).cur))
+  else (g.write f).move ((d.floored.write f).slots ((d.floored.write f).next (d.floored.write f).cur))
+
+theorem gstep_inv (c : DCfg) (d : Det F) (g : Ghost Frame) (f : Frame) (ffc : Bool) (h : RInv d.floored g) :
+    RInv (Det.detect c d f ffc).1.floored (gstep d g f ffc) := by
+  rw [det_floored]; unfold gstep
+  split
+  · exact inv_move _ _ (inv_mark _ _ (inv_write _ _ f h))
+  · exact inv_move _ _ (inv_write _ _ f h)
+
+theorem gstep_n (d : Det F) (g : Ghost Frame) (f : Frame) (ffc : Bool) : (gstep d g f ffc).n = g.n + 1 := by
+  unfold gstep; split <;> rfl
+
+theorem gstep_mark (d : Det F) (g : Ghost Frame) (f : Frame) (ffc : Bool) :
+    (gstep d g f ffc).mark = if d.firstDiff && (ffc || d.affected) then g.n else g.mark := by
+  unfold gstep; split <;> rfl
+
+theorem gstep_vals (d : Det F) (g : Ghost Frame) (f : Frame) (ffc : Bool) (k : Nat) (hk : k ≤ g.n) :
+    (gstep d g f ffc).vals k = if k = g.n then f else g.vals k := by
+  have : k ≠ g.n + 1 := by omega
+  unfold gstep; split <;> simp [Ghost.move, Ghost.write, Ghost.markNow, this]
+
+theorem det_floored_size (c : DCfg) (d : Det F) (f : Frame) (ffc : Bool) :
+    (Det.detect c d f ffc).1.floored.size = d.floored.size := by
+  rw [det_floored]; split <;> rfl
+
+theorem det_bf (c : DCfg) (d : Det F) (f : Frame) (ffc : Bool) :
+    (Det.detect c d f ffc).1.backgroundFrames =
+      if c.dynamic && !ffc then d.backgroundFrames + 1 else d.backgroundFrames := by
+  rw [(det_rest c d f ffc).2.2.2, (dpre_fields c d f ffc).2.2.2]
+
+theorem shape_step (c : DCfg) (dA dB : Det F) (gA gB : Ghost Frame) (f g : Frame) (ffc : Bool)
+    (sh : Shape dA dB gA gB) :
+    Shape (Det.detect c dA f ffc).1 (Det.detect c dB g ffc).1 (gstep dA gA f ffc) (gstep dB gB g ffc) := by
+  have pA := prev_after dA.diffs (newDiff c dA f ffc) sh.dsA sh.dlt
+  have pB := prev_after dB.diffs (newDiff c dB g ffc) sh.dsB (sh.dcur ▸ sh.dlt)
+  refine ⟨?_, ?_, ?_, ?_, ?_, ?_, ?_, ?_, gstep_inv c dA gA f ffc sh.rA, gstep_inv c dB gB g ffc sh.rB, ?_, ?_⟩
+  · rw [det_firstDiff, det_firstDiff, sh.fd, sh.aff]
+  · rw [detect_affected, detect_affected]
+  · rw [det_bf, det_bf, sh.bf]
+  · rw [det_diffs, det_diffs, pA.2.1, pB.2.1, sh.dcur]
+  · rw [det_diffs, pA.2.1]; omega
+  · rw [det_diffs]; exact pA.2.2
+  · rw [det_diffs]; exact pB.2.2
+  · rw [det_floored_size, det_floored_size, sh.fs]
+  · rw [gstep_n, gstep_n, sh.gn]
+  · rw [gstep_mark, gstep_mark, sh.fd, sh.aff, sh.gn, sh.gm]
+
+theorem shape_reset (dA dB : Det F) (gA gB : Ghost Frame) (sh : Shape dA dB gA gB) :
+    Shape dA.reset dB.reset (Ghost.reset (dA.floored.slots 0)) (Ghost.reset (dB.floored.slots 0)) :=
+  ⟨sh.fd, sh.aff, rfl, rfl, by simp [Det.reset, Ring.reset], sh.dsA, sh.dsB, sh.fs,
+    inv_reset _ _ sh.rA, inv_reset _ _ sh.rB, rfl, rfl⟩
+
+theorem shape_init (F : FloatOps) (c : DCfg) :
+    Shape (Det.init F c) (Det.init F c) { n := 0, mark := 0, vals := fun _ => Det.zeroFrame }
+      { n := 0, mark := 0, vals := fun _ => Det.zeroFrame } :=
+  ⟨rfl, rfl, rfl, rfl, by simp [Det.init, Ring.new], rfl, rfl, rfl,
+    inv_new _ _ (Nat.succ_pos _), inv_new _ _ (Nat.succ_pos _), rfl, rfl⟩
+
+
+/-! ## Background / threshold (dynamic mode) -/
+
+/-- the content-dependent fields read by the background update agree on the interior -/
+structure DynOK (c : DCfg) (dA dB : Det F) : Prop where
+  bg : EqI c dA.bg dB.bg
+  w : ∀ p ∈ c.interior, dA.weight p.1 p.2 = dB.weight p.1 p.2
+  t : ∀ p ∈ c.interior, dA.tempThresh = dB.tempThresh
+
+/-- holds of every run without `Reset`: the threshold was never recomputed while
+`backgroundFrames ≤ previewFrames`, and the weights are untouched while `backgroundFrames = 0` -/
+structure U (c : DCfg) (d : Det F) : Prop where
+  t : d.backgroundFrames ≤ c.previewFrames → d.tempThresh = c.tempThresh
+  w : d.backgroundFrames = 0 → ∀ y x, d.weight y x = F.w0
+
+theorem foldl_congr_mem {β γ : Type} (l : List β) (g1 g2 : γ → β → γ) (a : γ)
+    (h : ∀ x ∈ l, ∀ a, g1 a x = g2 a x) : l.foldl g1 a = l.foldl g2 a := by
+  induction l generalizing a with
+  | nil => rfl
+  | cons x xs ih =>
+    simp only [List.foldl_cons]
+    rw [h x (List.mem_cons_self ..)]
+    exact ih _ (fun y hy => h y (List.mem_cons_of_mem _ hy))
+
+theorem any_congr_mem {β : Type} (l : List β) (g1 g2 : β → Bool) (h : ∀ x ∈ l, g1 x = g2 x) :
+    l.any g1 = l.any g2 := by
+  induction l with
+  | nil => rfl
+  | cons x xs ih =>
+    simp only [List.any_cons]
+    rw [h x (List.mem_cons_self ..), ih (fun y hy => h y (List.mem_cons_of_mem _ hy))]
+
+theorem meanOf_congr (c : DCfg) (bA bB : Frame) (h : EqI c bA bB) :
+    Det.meanOf F c bA = Det.meanOf F c bB := by
+  unfold Det.meanOf
+  apply foldl_congr_mem
+  intro p hp a
+  rw [h p hp]
+
+theorem ub_rel (c : DCfg) (dA dB : Det F) (f : Frame) (p : Bool)
+    (hbf : dA.backgroundFrames = dB.backgroundFrames) (hbg : EqI c dA.bg dB.bg)
+    (hw : ∀ q ∈ c.interior, dA.weight q.1 q.2 = dB.weight q.1 q.2) :
+    EqI c (Det.updateBackground c dA f p).1.bg (Det.updateBackground c dB f p).1.bg ∧
+    (∀ q ∈ c.interior, (Det.updateBackground c dA f p).1.weight q.1 q.2 =
+      (Det.updateBackground c dB f p).1.weight q.1 q.2) ∧
+    (Det.updateBackground c dA f p).2.1 = (Det.updateBackground c dB f p).2.1 ∧
+    (Det.updateBackground c dA f p).2.2 = (Det.updateBackground c dB f p).2.2 := by
+  unfold Det.updateBackground
+  simp only [hbf]
+  split
+  · have e : EqI c (fun y x => if c.inI y x = true then f y x else dA.bg y x)
+        (fun y x => if c.inI y x = true then f y x else dB.bg y x) := by
+      intro q hq; simp only [mem_interior_inI c q hq, if_true]
+    exact ⟨e, hw, meanOf_congr c _ _ e, rfl⟩
+  · have e : EqI c
+        (fun y x => if (c.inI y x && (p || F.lower (f y x) (dA.weight y x) (dA.bg y x))) = true then f y x
+          else dA.bg y x)
+        (fun y x => if (c.inI y x && (p || F.lower (f y x) (dB.weight y x) (dB.bg y x))) = true then f y x
+          else dB.bg y x) := by
+      intro q hq; simp only [mem_interior_inI c q hq, hbg q hq, hw q hq]
+    refine ⟨e, ?_, meanOf_congr c _ _ e, ?_⟩
+    · intro q hq; simp only [mem_interior_inI c q hq, hbg q hq, hw q hq]
+    · apply any_congr_mem
+      intro q hq; simp only [hbg q hq, hw q hq]
+
+theorem ub_seed (c : DCfg) (dA dB : Det F) (f : Frame)
+    (hbf : dA.backgroundFrames = dB.backgroundFrames)
+    (hwA : dA.backgroundFrames = 0 → ∀ y x, dA.weight y x = F.w0)
+    (hwB : dB.backgroundFrames = 0 → ∀ y x, dB.weight y x = F.w0) :
+    EqI c (Det.updateBackground c dA f true).1.bg (Det.updateBackground c dB f true).1.bg ∧
+    (∀ q ∈ c.interior, (Det.updateBackground c dA f true).1.weight q.1 q.2 =
+      (Det.updateBackground c dB f true).1.weight q.1 q.2) ∧
+    (Det.updateBackground c dA f true).2.1 = (Det.updateBackground c dB f true).2.1 ∧
+    (∀ q ∈ c.interior, (Det.updateBackground c dA f true).2.2 = true ∧
+      (Det.updateBackground c dB f true).2.2 = true) := by
+  unfold Det.updateBackground
+  simp only [hbf] at hwA ⊢
+  split
+  · next h1 =>
+    have e : EqI c (fun y x => if c.inI y x = true then f y x else dA.bg y x)
+        (fun y x => if c.inI y x = true then f y x else dB.bg y x) := by
+      intro q hq; simp only [mem_interior_inI c q hq, if_true]
+    refine ⟨e, ?_, meanOf_congr c _ _ e, fun _ _ => ⟨rfl, rfl⟩⟩
+    intro q _
+    rw [hwA (by omega), hwB (by omega)]
+  · have e : EqI c
+        (fun y x => if (c.inI y x && (true || F.lower (f y x) (dA.weight y x) (dA.bg y x))) = true then f y x
+          else dA.bg y x)
+        (fun y x => if (c.inI y x && (true || F.lower (f y x) (dB.weight y x) (dB.bg y x))) = true then f y x
+          else dB.bg y x) := by
+      intro q hq; simp only [mem_interior_inI c q hq, Bool.true_or, Bool.and_self, if_true]
+    refine ⟨e, ?_, meanOf_congr c _ _ e, ?_⟩
+    · intro q hq; simp only [mem_interior_inI c q hq, Bool.true_or, if_true]
+    · intro q hq
+      simp only [Bool.true_or, List.any_eq_true]
+      exact ⟨⟨q, hq, trivial⟩, ⟨q, hq, trivial⟩⟩
+
+
+theorem dpre_dyn_fields (c : DCfg) (d : Det F) (f : Frame) (ffc : Bool) (h : (c.dynamic && !ffc) = true) :
+    (dpre c d f ffc).bg = (Det.updateBackground c { d with affected := ffc } f d.affected).1.bg ∧
+    (dpre c d f ffc).weight = (Det.updateBackground c { d with affected := ffc } f d.affected).1.weight ∧
+    (dpre c d f ffc).tempThresh =
+      if (Det.updateBackground c { d with affected := ffc } f d.affected).2.2 &&
+          decide (d.backgroundFrames + 1 > c.previewFrames) then
+        Det.clampThresh c (F.trunc (Det.updateBackground c { d with affected := ffc } f d.affected).2.1)
+      else d.tempThresh := by
+  have hu := ub_fields c { d with affected := ffc } f d.affected
+  rw [dpre_dyn c d f ffc h]
+  simp only [hu.2.2.2.1]
+  split
+  · exact ⟨rfl, rfl, rfl⟩
+  · exact ⟨rfl, rfl, hu.2.2.2.2⟩
+
+/-- a common frame keeps `DynOK` -/
+theorem dyn_keep (c : DCfg) (dA dB : Det F) (f : Frame) (ffc : Bool)
+    (hbf : dA.backgroundFrames = dB.backgroundFrames) (haff : dA.affected = dB.affected)
+    (hd : DynOK c dA dB) : DynOK c (dpre c dA f ffc) (dpre c dB f ffc) := by
+  cases h : (c.dynamic && !ffc)
+  · rw [dpre_skip c dA f ffc h, dpre_skip c dB f ffc h]
+    exact ⟨hd.bg, hd.w, hd.t⟩
+  · obtain ⟨a1, a2, a3⟩ := dpre_dyn_fields c dA f ffc h
+    obtain ⟨b1, b2, b3⟩ := dpre_dyn_fields c dB f ffc h
+    obtain ⟨e1, e2, e3, e4⟩ := ub_rel c { dA with affected := ffc } { dB with affected := ffc } f dA.affected
+      hbf hd.bg hd.w
+    rw [← haff] at b1 b2 b3
+    refine ⟨by rw [a1, b1]; exact e1, by rw [a2, b2]; exact e2, ?_⟩
+    intro q hq
+    rw [a3, b3, e3, e4, hbf]
+    split
+    · rfl
+    · exact hd.t q hq
+
+/-- the first unaffected frame after an FFC period re-seeds the background (no `Reset` so far) -/
+theorem dyn_seed (c : DCfg) (dA dB : Det F) (f : Frame) (hdyn : c.dynamic = true)
+    (hbf : dA.backgroundFrames = dB.backgroundFrames) (haA : dA.affected = true) (haB : dB.affected = true)
+    (uA : U c dA) (uB : U c dB) : DynOK c (dpre c dA f false) (dpre c dB f false) := by
+  have h : (c.dynamic && !false) = true := by simp [hdyn]
+  obtain ⟨a1, a2, a3⟩ := dpre_dyn_fields c dA f false h
+  obtain ⟨b1, b2, b3⟩ := dpre_dyn_fields c dB f false h
+  rw [haA] at a1 a2 a3
+  rw [haB] at b1 b2 b3
+  obtain ⟨e1, e2, e3, e4⟩ := ub_seed c { dA with affected := false } { dB with affected := false } f
+    hbf uA.w uB.w
+  refine ⟨by rw [a1, b1]; exact e1, by rw [a2, b2]; exact e2, ?_⟩
+  intro q hq
+  rw [a3, b3, e3, (e4 q hq).1, (e4 q hq).2, hbf]
+  by_cases hp : dB.backgroundFrames + 1 > c.previewFrames
+  · simp only [hp, decide_true, Bool.and_self, if_true]
+  · simp only [hp, decide_false, Bool.and_false, Bool.false_eq_true, if_false]
+    rw [uA.t (by omega), uB.t (by omega)]
+
+/-- `U` is kept by every frame -/
+theorem u_step (c : DCfg) (d : Det F) (f : Frame) (ffc : Bool) (u : U c d) : U c (dpre c d f ffc) := by
+  cases h : (c.dynamic && !ffc)
+  · rw [dpre_skip c d f ffc h]; exact ⟨u.t, u.w⟩
+  · obtain ⟨_, _, a3⟩ := dpre_dyn_fields c d f ffc h
+    have hb := (dpre_fields c d f ffc).2.2.2
+    simp only [h, if_true] at hb
+    refine ⟨?_, ?_⟩
+    · intro hle
+      rw [hb] at hle
+      have : ¬ d.backgroundFrames + 1 > c.previewFrames := by omega
+      rw [a3]
+      simp only [this, decide_false, Bool.and_false, Bool.false_eq_true, if_false]
+      exact u.t (by omega)
+    · intro h0; rw [hb] at h0; omega
+
+theorem u_init (F : FloatOps) (c : DCfg) : U c (Det.init F c) := ⟨fun _ => rfl, fun _ _ _ => rfl⟩
+
+/-- transfer along `pixelsChanged`, which touches none of these fields -/
+theorem dyn_det (c : DCfg) (dA dB : Det F) (f g : Frame) (ffc : Bool)
+    (h : DynOK c (dpre c dA f ffc) (dpre c dB g ffc)) :
+    DynOK c (Det.detect c dA f ffc).1 (Det.detect c dB g ffc).1 := by
+  obtain ⟨a1, a2, a3, _⟩ := det_rest c dA f ffc
+  obtain ⟨b1, b2, b3, _⟩ := det_rest c dB g ffc
+  exact ⟨by rw [a2, b2]; exact h.bg, by rw [a3, b3]; exact h.w, by rw [a1, b1]; exact h.t⟩
+
+theorem u_det (c : DCfg) (d : Det F) (f : Frame) (ffc : Bool) (u : U c d) : U c (Det.detect c d f ffc).1 := by
+  obtain ⟨a1, _, a3, a4⟩ := det_rest c d f ffc
+  have h := u_step c d f ffc u
+  exact ⟨by rw [a1, a4]; exact h.t, by rw [a3, a4]; exact h.w⟩
+
+/-- fixed threshold: `DynOK` is kept even by different frames -/
+theorem dyn_fixed (c : DCfg) (hdyn : c.dynamic = false) (dA dB : Det F) (f g : Frame) (ffc : Bool)
+    (hd : DynOK c dA dB) : DynOK c (Det.detect c dA f ffc).1 (Det.detect c dB g ffc).1 := by
+  apply dyn_det
+  have h : (c.dynamic && !ffc) = false := by simp [hdyn]
+  rw [dpre_skip c dA f ffc h, dpre_skip c dB g ffc h]
+  exact ⟨hd.bg, hd.w, hd.t⟩
+
+theorem dyn_reset (c : DCfg) (dA dB : Det F) (hd : DynOK c dA dB) : DynOK c dA.reset dB.reset :=
+  ⟨hd.bg, hd.w, hd.t⟩
+
+theorem dyn_refl (c : DCfg) (d : Det F) : DynOK c d d := ⟨fun _ _ => rfl, fun _ _ => rfl, fun _ _ => rfl⟩
+
+
+/-! ## The relational invariant of two runs over a common suffix -/
+
+/-- the buffered floored frames `Oldest()` can still return are the same in both runs -/
+def ValsAgree (gA gB : Ghost Frame) : Prop := ∀ k, gA.mark ≤ k → k < gA.n → gA.vals k = gB.vals k
+
+/-- the previous-diff slot agrees on the interior -/
+def PrevOK (c : DCfg) (dA dB : Det F) : Prop :=
+  EqI c (dA.diffs.slots ((dA.diffs.cur + 1) % 2)) (dB.diffs.slots ((dB.diffs.cur + 1) % 2))
+
+structure Rel (c : DCfg) (dA dB : Det F) (gA gB : Ghost Frame) : Prop where
+  sh : Shape dA dB gA gB
+  fl : ValsAgree gA gB ∨ (dA.firstDiff = true ∧ dA.affected = true)
+  dy : DynOK c dA dB ∨ (c.dynamic = true ∧ dA.affected = true ∧ U c dA ∧ U c dB)
+  pv : PrevOK c dA dB ∨ dA.firstDiff = false ∨ gA.mark = gA.n ∨ dA.affected = true
+
+theorem cmp_eq (dA dB : Det F) (gA gB : Ghost Frame) (sh : Shape dA dB gA gB) (hv : ValsAgree gA gB)
+    (f : Frame) : (dA.floored.write f).oldestFrame = (dB.floored.write f).oldestFrame := by
+  rw [oldestFrame_eq _ _ (inv_write _ _ f sh.rA), oldestFrame_eq _ _ (inv_write _ _ f sh.rB)]
+  simp only [Ghost.write, Ghost.lo, Ring.write]
+  rw [← sh.fs, ← sh.gn, ← sh.gm]
+  have hm := sh.rA.2.2.2.1
+  have hs := sh.rA.1
+  by_cases h : max gA.mark (gA.n + 1 - dA.floored.size) = gA.n
+  · simp only [h, if_true]
+  · simp only [h, if_false]; exact hv _ (by omega) (by omega)
+
+theorem cmp_self (r : Ring Frame) (g : Ghost Frame) (f : Frame) (h : RInv r g) (hm : g.mark = g.n) :
+    (r.write f).oldestFrame = f := by
+  rw [oldestFrame_eq _ _ (inv_write _ _ f h)]
+  simp only [Ghost.write, Ghost.lo, Ring.write]
+  have hs := h.1
+  have : max g.mark (g.n + 1 - r.size) = g.n := by omega
+  simp only [this, if_true]
+
+theorem vals_step (dA dB : Det F) (gA gB : Ghost Frame) (sh : Shape dA dB gA gB) (f : Frame) (ffc : Bool)
+    (h : ValsAgree gA gB ∨ (dA.firstDiff && (ffc || dA.affected)) = true) :
+    ValsAgree (gstep dA gA f ffc) (gstep dB gB f ffc) := by
+  intro k hk1 hk2
+  rw [gstep_n] at hk2
+  rw [gstep_mark] at hk1
+  rw [gstep_vals _ _ _ _ _ (by omega), gstep_vals _ _ _ _ _ (by rw [← sh.gn]; omega), ← sh.gn]
+  by_cases hk : k = gA.n
+  · simp only [hk, if_true]
+  · simp only [hk, if_false]
+    rcases h with hv | hm
+    · split at hk1
+      · omega
+      · exact hv k hk1 (by omega)
+    · rw [if_pos hm] at hk1; omega
+
+theorem dyn_part (c : DCfg) (dA dB : Det F) (gA gB : Ghost Frame) (sh : Shape dA dB gA gB) (f : Frame)
+    (ffc : Bool)
+    (dy : DynOK c dA dB ∨ (c.dynamic = true ∧ (ffc = true ∨ dA.affected = true) ∧ U c dA ∧ U c dB))
+    (hf : ffc = false) : DynOK c (dpre c dA f ffc) (dpre c dB f ffc) := by
+  rcases dy with hd | ⟨hdyn, hq, uA, uB⟩
+  · exact dyn_keep c dA dB f ffc sh.bf sh.aff hd
+  · subst hf
+    rcases hq with hq | hq
+    · exact absurd hq (by simp)
+    · exact dyn_seed c dA dB f hdyn sh.bf hq (sh.aff ▸ hq) uA uB
+
+theorem newDiff_eqI (c : DCfg) (dA dB : Det F) (gA gB : Ghost Frame) (sh : Shape dA dB gA gB) (f : Frame)
+    (ffc : Bool) (hv : ValsAgree gA gB) (hd : DynOK c (dpre c dA f ffc) (dpre c dB f ffc)) :
+    EqI c (newDiff c dA f ffc) (newDiff c dB f ffc) := by
+  unfold newDiff
+  rw [cmp_eq dA dB gA gB sh hv f]
+  exact diffOf_eqI c _ _ f _ _ _ hd.t
+
+theorem prevOK_step (c : DCfg) (dA dB : Det F) (gA gB : Ghost Frame) (sh : Shape dA dB gA gB) (f : Frame)
+    (ffc : Bool) (h : EqI c (newDiff c dA f ffc) (newDiff c dB f ffc)) :
+    PrevOK c (Det.detect c dA f ffc).1 (Det.detect c dB f ffc).1 := by
+  unfold PrevOK
+  rw [det_diffs, det_diffs, (prev_after dA.diffs _ sh.dsA sh.dlt).1,
+    (prev_after dB.diffs _ sh.dsB (sh.dcur ▸ sh.dlt)).1]
+  exact h
+
+theorem rel_step (c : DCfg) (dA dB : Det F) (gA gB : Ghost Frame) (f : Frame)
+    (ffc : Bool) (sh : Shape dA dB gA gB)
+    (fl : ffc = true ∨ ValsAgree gA gB ∨ (dA.firstDiff = true ∧ dA.affected = true))
+    (dy : DynOK c dA dB ∨ (c.dynamic = true ∧ (ffc = true ∨ dA.affected = true) ∧ U c dA ∧ U c dB))
+    (pv : ffc = true ∨ PrevOK c dA dB ∨ dA.firstDiff = false ∨ gA.mark = gA.n ∨ dA.affected = true) :
+    Rel c (Det.detect c dA f ffc).1 (Det.detect c dB f ffc).1 (gstep dA gA f ffc) (gstep dB gB f ffc) ∧
+    (Det.detect c dA f ffc).2 = (Det.detect c dB f ffc).2 := by
+  refine ⟨⟨shape_step c dA dB gA gB f f ffc sh, ?_, ?_, ?_⟩, ?_⟩
+  · -- floored
+    by_cases hm : (dA.firstDiff && (ffc || dA.affected)) = true
+    · exact Or.inl (vals_step dA dB gA gB sh f ffc (Or.inr hm))
+    · rcases fl with hffc | hv | ⟨h1, h2⟩
+      · right
+        rw [det_firstDiff, detect_affected]
+        simp only [hffc, Bool.true_or, Bool.and_true] at hm ⊢
+        simp [hm]
+      · exact Or.inl (vals_step dA dB gA gB sh f ffc (Or.inl hv))
+      · simp [h1, h2] at hm
+  · -- background / threshold
+    cases hf : ffc
+    · exact Or.inl (dyn_det c dA dB f f false (hf ▸ dyn_part c dA dB gA gB sh f ffc dy hf))
+    · rcases dy with hd | ⟨hdyn, _, uA, uB⟩
+      · exact Or.inl (dyn_det c dA dB f f true (dyn_keep c dA dB f true sh.bf sh.aff hd))
+      · exact Or.inr ⟨hdyn, detect_affected c dA f true, u_det c dA f true uA, u_det c dB f true uB⟩
+  · -- previous diff
+    cases hf : ffc
+    · have hd := dyn_part c dA dB gA gB sh f ffc dy hf
+      subst hf
+      by_cases hm : (dA.firstDiff && (false || dA.affected)) = true
+      · right; left; rw [det_firstDiff, hm]; rfl
+      · rcases fl with hffc | hv | ⟨h1, h2⟩
+        · exact absurd hffc (by simp)
+        · exact Or.inl (prevOK_step c dA dB gA gB sh f false (newDiff_eqI c dA dB gA gB sh f false hv hd))
+        · simp [h1, h2] at hm
+    · right; right; right; exact detect_affected c dA f true
+  · -- verdict
+    rw [det_out, det_out, ← sh.fd, ← sh.aff]
+    cases hq : (ffc || dA.affected)
+    · cases hfd : dA.firstDiff
+      · rfl
+      · simp only [Bool.or_eq_false_iff] at hq
+        obtain ⟨hf, ha⟩ := hq
+        have hd := dyn_part c dA dB gA gB sh f ffc dy hf
+        have hv : ValsAgree gA gB := by
+          rcases fl with hffc | hv | ⟨_, h2⟩
+          · rw [hf] at hffc; exact absurd hffc (by simp)
+          · exact hv
+          · rw [ha] at h2; exact absurd h2 (by simp)
+        have e := newDiff_eqI c dA dB gA gB sh f ffc hv hd
+        simp only [Bool.true_and, Bool.not_false]
+        rcases pv with hffc | hp | h1 | hmk | h2
+        · rw [hf] at hffc; exact absurd hffc (by simp)
+        · rw [prev_read _ _ sh.dsA, prev_read _ _ sh.dsB,
+            countChanged_congr c _ _ _ _ c.useOneDiff e hp]
+        · rw [hfd] at h1; exact absurd h1 (by simp)
+        · have zA : Det.countChanged c (newDiff c dA f ffc)
+              (if c.useOneDiff then none else some ((dA.diffs.write (newDiff c dA f ffc)).move).current) = 0 := by
+            apply countChanged_zero
+            unfold newDiff
+            rw [cmp_self _ _ f sh.rA hmk]
+            exact diffOf_self c _ f _
+          have zB : Det.countChanged c (newDiff c dB f ffc)
+              (if c.useOneDiff then none else some ((dB.diffs.write (newDiff c dB f ffc)).move).current) = 0 := by
+            apply countChanged_zero
+            unfold newDiff
+            rw [cmp_self _ _ f sh.rB (by rw [← sh.gm, ← sh.gn]; exact hmk)]
+            exact diffOf_self c _ f _
+          rw [zA, zB]
+        · rw [ha] at h2; exact absurd h2 (by simp)
+    · simp
+
+
+theorem rel_frame (c : DCfg) (dA dB : Det F) (gA gB : Ghost Frame) (f : Frame) (ffc : Bool)
+    (r : Rel c dA dB gA gB) :
+    Rel c (Det.detect c dA f ffc).1 (Det.detect c dB f ffc).1 (gstep dA gA f ffc) (gstep dB gB f ffc) ∧
+    (Det.detect c dA f ffc).2 = (Det.detect c dB f ffc).2 := by
+  apply rel_step c dA dB gA gB f ffc r.sh (Or.inr r.fl)
+  · rcases r.dy with h | ⟨h1, h2, h3, h4⟩
+    · exact Or.inl h
+    · exact Or.inr ⟨h1, Or.inr h2, h3, h4⟩
+  · exact Or.inr r.pv
+
+/-- `Reset` when the background state already agrees (always the case with a fixed threshold) -/
+theorem rel_reset (c : DCfg) (dA dB : Det F) (gA gB : Ghost Frame) (sh : Shape dA dB gA gB)
+    (hd : DynOK c dA dB) :
+    Rel c dA.reset dB.reset (Ghost.reset (dA.floored.slots 0)) (Ghost.reset (dB.floored.slots 0)) :=
+  ⟨shape_reset dA dB gA gB sh, Or.inl (fun k _ hk => absurd hk (Nat.not_lt_zero k)),
+    Or.inl (dyn_reset c dA dB hd), Or.inr (Or.inr (Or.inl rfl))⟩
+
+/-- the pivot of (b): an FFC-affected frame on two runs of the same shape -/
+theorem rel_pivot (c : DCfg) (dA dB : Det F) (gA gB : Ghost Frame) (f : Frame) (sh : Shape dA dB gA gB)
+    (dy : DynOK c dA dB ∨ (c.dynamic = true ∧ U c dA ∧ U c dB)) :
+    Rel c (Det.detect c dA f true).1 (Det.detect c dB f true).1 (gstep dA gA f true) (gstep dB gB f true) ∧
+    (Det.detect c dA f true).2 = (Det.detect c dB f true).2 := by
+  apply rel_step c dA dB gA gB f true sh (Or.inl rfl)
+  · rcases dy with h | ⟨h1, h3, h4⟩
+    · exact Or.inl h
+    · exact Or.inr ⟨h1, Or.inl rfl, h3, h4⟩
+  · exact Or.inl rfl
+
+/-- two related runs give the same verdicts on the same events; `Reset` is allowed while the
+background state agrees -/
+theorem rel_run (c : DCfg) (evs : List DEv) (dA dB : Det F) (gA gB : Ghost Frame) (r : Rel c dA dB gA gB)
+    (h : DynOK c dA dB ∨ ∀ e ∈ evs, e ≠ DEv.reset) : Det.outputs c dA evs = Det.outputs c dB evs := by
+  induction evs generalizing dA dB gA gB with
+  | nil => rfl
+  | cons e es ih =>
+    cases e with
+    | frame f ffc =>
+      obtain ⟨r', ho⟩ := rel_frame c dA dB gA gB f ffc r
+      simp only [Det.outputs, Det.stepEv]
+      rw [ho]
+      congr 1
+      apply ih _ _ _ _ r'
+      rcases h with h | h
+      · exact Or.inl (dyn_det c dA dB f f ffc (dyn_keep c dA dB f ffc r.sh.bf r.sh.aff h))
+      · exact Or.inr (fun e he => h e (List.mem_cons_of_mem _ he))
+    | reset =>
+      simp only [Det.outputs, Det.stepEv]
+      rcases h with h | h
+      · exact ih _ _ _ _ (rel_reset c dA dB gA gB r.sh h) (Or.inl (dyn_reset c dA dB h))
+      · exact absurd rfl (h _ (List.mem_cons_self ..))
+
+/-! ## Prefixes of the same shape -/
+
+/-- same constructors and FFC flags, arbitrary frame contents -/
+def sameShape : List DEv → List DEv → Prop
+  | [], [] => True
+  | .frame _ a :: as, .frame _ b :: bs => a = b ∧ sameShape as bs
+  | .reset :: as, .reset :: bs => sameShape as bs
+  | _, _ => False
+
+/-- fixed threshold: shape and background state agree after prefixes of the same shape -/
+theorem pre_fixed (c : DCfg) (hdyn : c.dynamic = false) (pA pB : List DEv) (dA dB : Det F)
+    (gA gB : Ghost Frame) (hs : sameShape pA pB) (sh : Shape dA dB gA gB) (hd : DynOK c dA dB) :
+    ∃ gA' gB', Shape (Det.after c dA pA) (Det.after c dB pB) gA' gB' ∧
+      DynOK c (Det.after c dA pA) (Det.after c dB pB) := by
+  induction pA generalizing pB dA dB gA gB with
+  | nil =>
+    cases pB with
+    | nil => exact ⟨gA, gB, sh, hd⟩
+    | cons b bs => exact absurd hs (by simp [sameShape])
+  | cons a as ih =>
+    cases pB with
+    | nil => cases a <;> exact absurd hs (by simp [sameShape])
+    | cons b bs =>
+      cases a with
+      | frame f fa =>
+        cases b with
+        | frame g fb =>
+          simp only [sameShape] at hs
+          obtain ⟨rfl, hs⟩ := hs
+          simp only [Det.after, Det.stepEv]
+          exact ih bs _ _ _ _ hs (shape_step c dA dB gA gB f g fa sh) (dyn_fixed c hdyn dA dB f g fa hd)
+        | reset => exact absurd hs (by simp [sameShape])
+      | reset =>
+        cases b with
+        | frame g fb => exact absurd hs (by simp [sameShape])
+        | reset =>
+          simp only [sameShape] at hs
+          simp only [Det.after, Det.stepEv]
+          exact ih bs _ _ _ _ hs (shape_reset dA dB gA gB sh) (dyn_reset c dA dB hd)
+
+/-- any threshold mode: the shape agrees after prefixes of the same shape -/
+theorem pre_shape (c : DCfg) (pA pB : List DEv) (dA dB : Det F)
+    (gA gB : Ghost Frame) (hs : sameShape pA pB) (sh : Shape dA dB gA gB) :
+    ∃ gA' gB', Shape (Det.after c dA pA) (Det.after c dB pB) gA' gB' := by
+  induction pA generalizing pB dA dB gA gB with
+  | nil =>
+    cases pB with
+    | nil => exact ⟨gA, gB, sh⟩
+    | cons b bs => exact absurd hs (by simp [sameShape])
+  | cons a as ih =>
+    cases pB with
+    | nil => cases a <;> exact absurd hs (by simp [sameShape])
+    | cons b bs =>
+      cases a with
+      | frame f fa =>
+        cases b with
+        | frame g fb =>
+          simp only [sameShape] at hs
+          obtain ⟨rfl, hs⟩ := hs
+          simp only [Det.after, Det.stepEv]
+          exact ih bs _ _ _ _ hs (shape_step c dA dB gA gB f g fa sh)
+        | reset => exact absurd hs (by simp [sameShape])
+      | reset =>
+        cases b with
+        | frame g fb => exact absurd hs (by simp [sameShape])
+        | reset =>
+          simp only [sameShape] at hs
+          simp only [Det.after, Det.stepEv]
+          exact ih bs _ _ _ _ hs (shape_reset dA dB gA gB sh)
+
+theorem sameShape_noReset (pA pB : List DEv) (hs : sameShape pA pB) (h : ∀ e ∈ pA, e ≠ DEv.reset) :
+    ∀ e ∈ pB, e ≠ DEv.reset := by
+  induction pA generalizing pB with
+  | nil =>
+    cases pB with
+    | nil => exact fun _ he => absurd he (by simp)
+    | cons b bs => exact absurd hs (by simp [sameShape])
+  | cons a as ih =>
+    cases pB with
+    | nil => cases a <;> exact absurd hs (by simp [sameShape])
+    | cons b bs =>
+      cases a with
+      | frame f fa =>
+        cases b with
+        | frame g fb =>
+          simp only [sameShape] at hs
+          intro e he
+          rcases List.mem_cons.mp he with rfl | he
+          · intro h'; cases h'
+          · exact ih bs hs.2 (fun e he => h e (List.mem_cons_of_mem _ he)) e he
+        | reset => exact absurd hs (by simp [sameShape])
+      | reset => exact absurd rfl (h _ (List.mem_cons_self ..))
+
+/-- without `Reset`, `U` holds after any prefix -/
+theorem pre_u (c : DCfg) (p : List DEv) (d : Det F) (h : ∀ e ∈ p, e ≠ DEv.reset) (u : U c d) :
+    U c (Det.after c d p) := by
+  induction p generalizing d with
+  | nil => exact u
+  | cons a as ih =>
+    cases a with
+    | frame f fa =>
+      simp only [Det.after, Det.stepEv]
+      exact ih _ (fun e he => h e (List.mem_cons_of_mem _ he)) (u_det c d f fa u)
+    | reset => exact absurd rfl (h _ (List.mem_cons_self ..))
+
+/-! ## The three independence results -/
+
+theorem reset_independence (F : FloatOps) (c : DCfg) (hdyn : c.dynamic = false)
+    (preA preB post : List DEv) (hs : sameShape preA preB) :
+    Det.outputs c (Det.after c (Det.init F c) preA) (.reset :: post) =
+    Det.outputs c (Det.after c (Det.init F c) preB) (.reset :: post) := by
+  obtain ⟨gA, gB, sh, hd⟩ := pre_fixed c hdyn preA preB _ _ _ _ hs (shape_init F c) (dyn_refl c _)
+  simp only [Det.outputs, Det.stepEv]
+  exact rel_run c post _ _ _ _ (rel_reset c _ _ gA gB sh hd) (Or.inl (dyn_reset c _ _ hd))
+
+theorem ffc_independence_fixed (F : FloatOps) (c : DCfg) (hdyn : c.dynamic = false)
+    (preA preB : List DEv) (hs : sameShape preA preB) (f : Frame) (rest : List DEv) :
+    Det.outputs c (Det.after c (Det.init F c) preA) (.frame f true :: rest) =
+    Det.outputs c (Det.after c (Det.init F c) preB) (.frame f true :: rest) := by
+  obtain ⟨gA, gB, sh, hd⟩ := pre_fixed c hdyn preA preB _ _ _ _ hs (shape_init F c) (dyn_refl c _)
+  obtain ⟨r, ho⟩ := rel_pivot c _ _ gA gB f sh (Or.inl hd)
+  simp only [Det.outputs, Det.stepEv]
+  rw [ho]
+  congr 1
+  exact rel_run c rest _ _ _ _ r
+    (Or.inl (dyn_det c _ _ f f true (dyn_keep c _ _ f true sh.bf sh.aff hd)))
+
+theorem ffc_independence_noreset (F : FloatOps) (c : DCfg)
+    (preA preB : List DEv) (hs : sameShape preA preB) (hnr : ∀ e ∈ preA, e ≠ DEv.reset)
+    (f : Frame) (rest : List DEv) (hnr' : ∀ e ∈ rest, e ≠ DEv.reset) :
+    Det.outputs c (Det.after c (Det.init F c) preA) (.frame f true :: rest) =
+    Det.outputs c (Det.after c (Det.init F c) preB) (.frame f true :: rest) := by
+  cases hdyn : c.dynamic
+  · exact ffc_independence_fixed F c hdyn preA preB hs f rest
+  · obtain ⟨gA, gB, sh⟩ := pre_shape c preA preB _ _ _ _ hs (shape_init F c)
+    have uA := pre_u c preA _ hnr (u_init F c)
+    have uB := pre_u c preB _ (sameShape_noReset preA preB hs hnr) (u_init F c)
+    obtain ⟨r, ho⟩ := rel_pivot c _ _ gA gB f sh (Or.inr ⟨hdyn, uA, uB⟩)
+    simp only [Det.outputs, Det.stepEv]
+    rw [ho]
+    congr 1
+    exact rel_run c rest _ _ _ _ r (Or.inr hnr')
 
 end TR.P09
